@@ -1,4 +1,5 @@
 import Okane.Lemmas.Price
+import Okane.Lemmas.PriceTerm
 /-!
 # C09 — commodity conversion uses the right price
 
@@ -132,7 +133,7 @@ theorem C09_insert_no_panic (ledgerEvents dbEvents : List (PriceEvent κ)) :
 
 theorem table_inv {cfg : Cfg κ} {repo : Builder κ} {T : κ} {D : Date} {tbl : Table κ}
     (h : priceTable cfg repo T D = .ok tbl) : Inv (edgesAt cfg.ord repo D) T tbl [] none :=
-  loop_inv cfg.pick cfg.fuel [] _ tbl init_inv h
+  loop_inv (cfg.pick T D) cfg.fuel [] _ tbl init_inv h
 
 /-- Every table entry is realised by a chain of as-of steps from the target with exactly that distance and that
 rate product. -/
@@ -301,16 +302,18 @@ theorem C09_cache_transparent (cfg : Cfg κ) (repo : Builder κ) (cache : Cache 
 
 /-! ## termination -/
 
-/-- Full statement: there is a fuel bound, computed from the repository alone, within which the table computation
-ends for every pop order and every neighbour order.  (The loop pops one element per iteration; an element is
-pushed only when a label strictly improves.) -/
-def C09_terminates_statement (κ : Type) [DecidableEq κ] : Prop :=
-  ∃ bound : Builder κ → Nat, ∀ (cfg : Cfg κ) (repo : Builder κ) (T : κ) (D : Date),
-    bound repo ≤ cfg.fuel → ∃ tbl, priceTable cfg repo T D = .ok tbl
+/-- **Termination within a fuel bound.**  `fuelBound repo D = 2·|V|·(|V|+1)²·(Smax+1) + 1`, where `V` lists the
+commodities mentioned in the repository and `Smax` is the greatest staleness a record can have at `D`.  With
+that much fuel the table computation ends with a table — for every pop order and every neighbour order that
+visits only stored neighbours.  (Each iteration pops one element; an element is pushed only when a label strictly
+improves; labels come from chains that visit no commodity twice, so a label can improve only boundedly often.) -/
+theorem C09_terminates (cfg : Cfg κ) (repo : Builder κ) (T : κ) (D : Date)
+    (hord : ∀ p l x, x ∈ cfg.ord p l → x ∈ l) (hfuel : fuelBound repo D ≤ cfg.fuel) :
+    ∃ tbl, priceTable cfg repo T D = .ok tbl :=
+  priceTable_terminates cfg repo T D hord hfuel
 
-/-- What is proved of it here: a run that has fuel left never stops early with a wrong answer — it either ends
-with the (sound, optimal) table or reports `fuelOut`; it never panics and never returns an error. -/
-theorem C09_terminates_partial (cfg : Cfg κ) (repo : Builder κ) (T : κ) (D : Date) :
+/-- whatever the fuel, a run never panics and never returns an error: it ends with a table or runs out of fuel. -/
+theorem C09_no_crash (cfg : Cfg κ) (repo : Builder κ) (T : κ) (D : Date) :
     (∃ tbl, priceTable cfg repo T D = .ok tbl) ∨ priceTable cfg repo T D = .fuelOut := by
   unfold priceTable tableOf
   generalize ([] : Table κ) = t
@@ -329,13 +332,27 @@ theorem C09_terminates_partial (cfg : Cfg κ) (repo : Builder κ) (T : κ) (D : 
       · exact ih _ _
       · exact ih _ _
 
+/-- Conversion with enough fuel is total: it answers with the best chain's rate or reports that no chain exists —
+no panic, no hang. -/
+theorem C09_convert_total (cfg : Cfg κ) (repo : Builder κ) (v : SingleAmount κ) (T : κ) (D : Date)
+    (hord : ∀ p l x, x ∈ cfg.ord p l → x ∈ l) (hfuel : fuelBound repo D ≤ cfg.fuel) :
+    (∃ w, convertSingle cfg repo v T D = .ok w) ∨ convertSingle cfg repo v T D = .err (.rateNotFound v T D) := by
+  obtain ⟨tbl, h⟩ := C09_terminates cfg repo T D hord hfuel
+  unfold convertSingle
+  by_cases hv : v.commodity = T
+  · left; exact ⟨v, by simp [hv]⟩
+  · simp only [hv, if_false, h]
+    cases AMap.get? tbl v.commodity with
+    | none => right; rfl
+    | some x => left; exact ⟨_, rfl⟩
+
 /-! ## non-vacuity and witnesses (commodities are numbers here: 0 = target) -/
 section Examples
 
 private def day (n : Nat) : Date := ⟨2024, 1, n⟩
-private def cfgFifo : Cfg Nat := ⟨64, fun _ _ => 0, fun _ l => l⟩
-private def cfgLifoRev : Cfg Nat := ⟨64, fun _ q => q.length - 1, fun _ l => l.reverse⟩
-private def cfgFifoRev : Cfg Nat := ⟨64, fun _ _ => 0, fun _ l => l.reverse⟩
+private def cfgFifo : Cfg Nat := ⟨64, fun _ _ _ _ => 0, fun _ l => l⟩
+private def cfgLifoRev : Cfg Nat := ⟨64, fun _ _ _ q => q.length - 1, fun _ l => l.reverse⟩
+private def cfgFifoRev : Cfg Nat := ⟨64, fun _ _ _ _ => 0, fun _ l => l.reverse⟩
 
 /-- ledger: 1 c1 = 2 c0 on day 5; 10 c1 = 30 c0 on day 9.  price db: 1 c2 = 4 c1 on day 7. -/
 private def repo1 : Builder Nat :=
@@ -380,6 +397,8 @@ example : Sorted (entryOf repo1 0 1).recs := C09_build_sorted _ 0 1
 example : asOf [(day 5, 2), (day 9, 3)] (day 8) = some (day 5, 2) := by decide +kernel
 example : asOf [(day 5, 2), (day 5, 3), (day 9, 1)] (day 5) = some (day 5, 3) := by decide +kernel
 example : OrdValid (fun (_ : Nat) l => l.reverse) := fun _ _ _ => List.mem_reverse
+-- the fuel bound is a concrete number: 7 mentions, staleness at most 4 days on day 9
+example : fuelBound repo1 (day 9) = 4481 := by decide +kernel
 
 end Examples
 
